@@ -7,11 +7,13 @@ Case line:   <cs> <layout> { ; <op> }*        layout ::= size[p],size[p],...   (
 The reference below is the SPECIFICATION of the property (concatenate the files in torrent order),
 written without looking at how the code walks files."""
 import bisect
+import hashlib
 import itertools
 import os
 import random
 
 U32 = 1 << 32
+PAGE = os.sysconf("SC_PAGESIZE")
 
 
 def hx(b):
@@ -66,7 +68,6 @@ class Ref:
         self.npieces = (o + cs - 1) // cs
         self.bits = set()                 # completed bitfield
         self.counted_bits = set()         # bits the per-file counters have seen (mark / update_completed)
-        self.fexp = [0] * len(lay)        # expected File::completed_chunks
         self._ne = [i for i, (s, _) in enumerate(lay) if s > 0]
         self._neoffs = [self.offs[i] for i in self._ne]
 
@@ -94,27 +95,9 @@ class Ref:
         s = self.lay[j][0]
         return s > 0 and self.offs[j] < (p + 1) * self.cs and p * self.cs < self.offs[j] + s
 
-    def clean(self, j):
-        """files whose counter the property pins down exactly: non-empty and not starting exactly on
-        a piece boundary (other than stream offset 0 ... of piece 0)"""
-        s = self.lay[j][0]
-        return s > 0 and (self.offs[j] % self.cs != 0 or self.offs[j] == 0)
-
-    def r2(self, j):
-        s = self.lay[j][0]
-        return self.offs[j] // self.cs if s == 0 else (self.offs[j] + s + self.cs - 1) // self.cs
-
     def counted(self, j, p):
-        """does completing piece p increment file j's counter.  For clean files this IS 'file j
-        overlaps piece p'.  KNOWN QUIRK of FileList::inc_completed (kept as the code has it, see
-        DESIGN.md section 8, C02 note): the file that starts exactly at the END of piece p is also
-        incremented, and so are the empty files the walk passes on the way."""
-        if self.clean(j):
-            return self.overlaps(j, p)
-        n = len(self.lay)
-        a = next((i for i in range(n) if self.r2(i) > p), n)
-        b = next((i for i in range(a, n) if self.r2(i) > p + 1), n)
-        return a <= j <= b
+        """completing piece p increments file j's counter iff file j overlaps piece p"""
+        return self.overlaps(j, p)
 
     def bits_counted(self, j):
         """set pieces overlapping file j, as of the last mark/recount (S alone does not count yet)"""
@@ -123,15 +106,9 @@ class Ref:
     def mark(self, p):
         self.counted_bits.add(p)
         self.bits.add(p)
-        for j in range(len(self.lay)):
-            self.fexp[j] += self.counted(j, p)
 
     def recount(self):
         self.counted_bits = set(self.bits)
-        if len(self.bits) == self.npieces:
-            self.fexp = [(self.r2(j) - self.offs[j] // self.cs) for j in range(len(self.lay))]
-        else:
-            self.fexp = [sum(self.counted(j, p) for p in self.bits) for j in range(len(self.lay))]
 
 
 def oracle(case, line):
@@ -211,6 +188,8 @@ def oracle(case, line):
                     fail("parts-padding-flag", "padding flag of a part differs from the file's", j)
                 got.append((ppos, psz, pfi, pfo))
                 cpos += psz
+                if len(p) > 5 and int(p[5]) != (0 if pk == "p" else pfo % PAGE):
+                    fail("mmap-align", "part mapped with page alignment %s, file offset %d" % (p[5], pfo), j)
             if ln <= 8192:
                 expb = [(fi, fo + t) for (_, ext, fi, fo) in runs for t in range(ext)]
                 gotb = [(pfi, pfo + t) for (_, psz, pfi, pfo) in got for t in range(psz)]
@@ -257,6 +236,33 @@ def oracle(case, line):
                 want = "1" if view(pos, pos + n) == data else "0"
                 if f["cmp"] != want:
                     fail("compare-wrong", "compare_buffer returned %s, expected %s" % (f["cmp"], want), j)
+        elif k == "H":
+            idx = int(op[1])
+            steps = [] if op[2] == "-" else [int(x) for x in op[2].split(",")]
+            if idx >= R.npieces:
+                if o != "ERR:internal":
+                    fail("chunk-out-of-range-accepted", "hashing chunk beyond the torrent was not refused", j)
+                continue
+            off, ln = idx * cs, R.piece_size(idx)
+            files_t = []
+            t = 0
+            while t < ln:
+                fi, fo = R.locate(off + t)
+                ext = min(ln - t, lay[fi][0] - fo)
+                files_t.append(fi)
+                t += ext
+            if o == "NULL":
+                if all(R.sized[fi] or lay[fi][1] for fi in files_t):
+                    fail("chunk-null", "hashing chunk creation failed on a mappable range", j)
+                continue
+            if any(not (R.sized[fi] or lay[fi][1]) for fi in files_t):
+                fail("chunk-on-short-file", "hashing chunk mapped beyond a file's current size", j)
+                continue
+            # the piece's bytes, in order, each exactly once (padding reads as zeros)
+            data = bytes(0 if lay[R.locate(off + t)[0]][1] else R.get(off + t) for t in range(ln))
+            want = "hash=%s pos=%d" % (hashlib.sha1(data).hexdigest(), ln)
+            if o != want:
+                fail("hash-input", "HashChunk digest/position %s, the piece's bytes give %s" % (o[:60], want[:60]), j)
         elif k == "M":
             idx = int(op[1])
             legal = idx < R.npieces and idx not in R.bits
@@ -319,15 +325,11 @@ def oracle(case, line):
                 # overlap the file, never above the file's piece count; 0 for empty files
                 want = len(R.bits_counted(i))
                 if comp != want or comp > r2 - r1:
-                    if not R.clean(i) and comp == R.fexp[i]:
-                        # exactly the code's known walk: FileList::inc_completed also increments empty
-                        # files it passes and the file that starts at the end of the completed piece
-                        bad.append(("file-completed-overcount",
-                                    "op %d (Q): file %d (offset %d, size %d, pieces [%d,%d)) has completed_chunks %d but %d of its pieces are set" % (
-                                        j, i, fo, fs, r1, r2, comp, want)))
-                    else:
-                        fail("file-completed", "file %d completed_chunks %d, but %d of its pieces are set (piece count %d)" % (
-                            i, comp, want, r2 - r1), j)
+                    # klass file-completed-overcount: the defect repaired by 17569a5 (inc_completed counted
+                    # empty files its walk passed and the file starting exactly at the end of the piece)
+                    kl = "file-completed-overcount" if comp > want else "file-completed"
+                    bad.append((kl, "op %d (Q): file %d (offset %d, size %d, pieces [%d,%d)) has completed_chunks %d but %d of its pieces are set" % (
+                        j, i, fo, fs, r1, r2, comp, want)))
             cbytes = sum(R.piece_size(i) for i in R.bits)
             if int(f["cc"]) != len(R.bits):
                 fail("completed-count", "completed_chunks %s, expected %d" % (f["cc"], len(R.bits)), j)
@@ -460,6 +462,11 @@ def gen_ops(r, cs, lay, malformed=False):
                 ops.append("Q")
         if r.random() < 0.3:
             ops.append(v_op())
+        if r.random() < 0.15 and np_:
+            hi = r.randrange(np_)
+            ps_ = R.piece_size(hi)
+            st = [r.choice((0, 1, ps_ - 1, ps_, ps_ + 1, r.randrange(0, ps_ + 2))) for _ in range(r.randrange(0, 4))]
+            ops.append("H %d %s" % (hi, ",".join(str(max(0, x)) for x in st) if st else "-"))
         if r.random() < 0.08:
             ops += ["R", "Q"]
             marks = []
@@ -519,6 +526,8 @@ def canonical_ops(cs, lay, order_seed):
         ops.append("M %d" % idx)
     ops.append("Q")
     ops.append("C 0 %d 0 0 - 0 %d" % (R.total, R.total))
+    for idx in range(R.npieces):
+        ops.append("H %d %s" % (idx, "-" if idx % 2 else "1,%d" % max(0, R.piece_size(idx) - 2)))
     for idx in range(R.npieces):
         ops.append("V %d 0 %d" % (idx, R.piece_size(idx)))
         ops.append("V %d 1 %d" % (idx, R.piece_size(idx)))
@@ -610,6 +619,8 @@ def loader_case(r):
     for i, (s_, p_, _) in enumerate(ents[:4]):
         if s_ > 0:
             ops.append("P %d %d %d" % (i, r.randrange(s_), 16))
+    for idx in order[:3]:
+        ops.append("H %d %s" % (idx, r.choice(("-", "100", "1,1024", "512,512,512"))))
     ops += ["Q", "D"]
     if r.random() < 0.3:
         ops += ["R", "Q", "M %d" % order[0], "Q", "D"]
